@@ -4,7 +4,7 @@
 (* the properties of C19 / C20 stated once, over the environment roles.    *)
 (* cfg.comb selects the combinator; Pend/Adv/Birth dispatch on the role.   *)
 (***************************************************************************)
-EXTENDS Dup, Fmap, Do
+EXTENDS Dup, Fmap, Chaos
 
 Pend(p) == LET r == gs[p].role IN
   CASE r \in EnvRoles        -> EnvPend(p)
@@ -14,6 +14,7 @@ Pend(p) == LET r == gs[p].role IN
     [] r = "jvar"            -> JVPend(p)
     [] r = "pfmap"           -> PipePend(p)
     [] r \in {"docaller", "doworker"} -> DoPend(p)
+    [] r = "script"          -> ScriptPend(p)
 
 Adv(p, r) == LET ro == gs[p].role IN
   CASE ro \in EnvRoles        -> EnvAdv(p, r)
@@ -23,6 +24,7 @@ Adv(p, r) == LET ro == gs[p].role IN
     [] ro = "jvar"            -> JVAdv(p, r)
     [] ro = "pfmap"           -> PipeAdv(p, r)
     [] ro \in {"docaller", "doworker"} -> DoAdv(p, r)
+    [] ro = "script"          -> ScriptAdv(p, r)
 
 Birth(p, c) ==
   CASE gs[p].role = "jtop"  -> JoinBirth(p, c)
@@ -30,18 +32,18 @@ Birth(p, c) ==
     [] OTHER                -> gs[c].as
 
 InitCh(c) == CASE c.comb = "dup" -> DupInitCh(c) [] c.comb = "fmap" -> FmapInitCh(c) [] c.comb = "joinchan" -> JCInitCh(c)
-               [] c.comb = "joinslice" -> JSInitCh(c) [] c.comb = "joinvar" -> JVInitCh(c) [] c.comb = "pipeline" -> PipeInitCh(c) [] c.comb = "do" -> DoInitCh(c)
+               [] c.comb = "joinslice" -> JSInitCh(c) [] c.comb = "joinvar" -> JVInitCh(c) [] c.comb = "pipeline" -> PipeInitCh(c) [] c.comb = "do" -> DoInitCh(c) [] c.comb = "chaos" -> ChaosInitCh(c)
 InitWg(c) == CASE c.comb = "dup" -> DupInitWg(c) [] c.comb = "fmap" -> FmapInitWg(c) [] c.comb = "joinchan" -> JCInitWg(c)
-               [] c.comb = "joinslice" -> JSInitWg(c) [] c.comb = "joinvar" -> JVInitWg(c) [] c.comb = "pipeline" -> PipeInitWg(c) [] c.comb = "do" -> DoInitWg(c)
+               [] c.comb = "joinslice" -> JSInitWg(c) [] c.comb = "joinvar" -> JVInitWg(c) [] c.comb = "pipeline" -> PipeInitWg(c) [] c.comb = "do" -> DoInitWg(c) [] c.comb = "chaos" -> ChaosInitWg(c)
 InitGs(c) == CASE c.comb = "dup" -> DupInitGs(c) [] c.comb = "fmap" -> FmapInitGs(c) [] c.comb = "joinchan" -> JCInitGs(c)
-               [] c.comb = "joinslice" -> JSInitGs(c) [] c.comb = "joinvar" -> JVInitGs(c) [] c.comb = "pipeline" -> PipeInitGs(c) [] c.comb = "do" -> DoInitGs(c)
+               [] c.comb = "joinslice" -> JSInitGs(c) [] c.comb = "joinvar" -> JVInitGs(c) [] c.comb = "pipeline" -> PipeInitGs(c) [] c.comb = "do" -> DoInitGs(c) [] c.comb = "chaos" -> ChaosInitGs(c)
 Inputs(c)  == CASE c.comb = "dup" -> DupInputs(c) [] c.comb = "fmap" -> FmapInputs(c) [] c.comb = "joinchan" -> JCInputs(c)
-               [] c.comb = "joinslice" -> JSInputs(c) [] c.comb = "joinvar" -> JVInputs(c) [] c.comb = "pipeline" -> PipeInputs(c) [] c.comb = "do" -> {}
+               [] c.comb = "joinslice" -> JSInputs(c) [] c.comb = "joinvar" -> JVInputs(c) [] c.comb = "pipeline" -> PipeInputs(c) [] c.comb = "do" -> {} [] c.comb = "chaos" -> {}
 Outputs(c) == CASE c.comb = "dup" -> DupOutputs(c) [] c.comb = "fmap" -> FmapOutputs(c) [] c.comb = "joinchan" -> JCOutputs(c)
-               [] c.comb = "joinslice" -> JSOutputs(c) [] c.comb = "joinvar" -> JVOutputs(c) [] c.comb = "pipeline" -> PipeOutputs(c) [] c.comb = "do" -> {}
+               [] c.comb = "joinslice" -> JSOutputs(c) [] c.comb = "joinvar" -> JVOutputs(c) [] c.comb = "pipeline" -> PipeOutputs(c) [] c.comb = "do" -> {} [] c.comb = "chaos" -> {}
 \* what a consumer of output channel o must receive: a sequence of input sequences
 Expect(c, o) == CASE c.comb = "dup" -> DupExpect(c, o) [] c.comb = "fmap" -> FmapExpect(c, o)
-                  [] c.comb \in {"joinchan", "joinslice", "joinvar"} -> JoinExpect(c, o) [] c.comb = "pipeline" -> PipeExpect(c, o) [] c.comb = "do" -> <<>>
+                  [] c.comb \in {"joinchan", "joinslice", "joinvar"} -> JoinExpect(c, o) [] c.comb = "pipeline" -> PipeExpect(c, o) [] c.comb = "do" -> <<>> [] c.comb = "chaos" -> <<>>
 
 InitFor(c) ==
   /\ cfg = c /\ ch = InitCh(c) /\ wg = InitWg(c) /\ gs = InitGs(c)
@@ -84,6 +86,10 @@ OutputsClosed == Terminated => \A o \in Outputs(cfg) : ch[o].closed
 
 (* C20: the caller has returned when everything has finished *)
 DoReturns == Terminated => \A p \in Callers : gs[p].returned
+
+\* every misuse script ends in exactly its runtime panic (the panic actions are not vacuous)
+ChaosPanics == (cfg.comb = "chaos" /\ Stuck(Pend)) => panicked = ChaosExpected(cfg.kind)
+ChaosNoEarlyPanic == (cfg.comb = "chaos" /\ panicked # "no") => panicked = ChaosExpected(cfg.kind)
 
 \* no deadlock other than full termination; CanStep is exactly enabledness
 NoDeadlock == Stuck(Pend) => Terminated
